@@ -491,7 +491,8 @@ def inline_helpers(F, body, depth=3, max_size=260, skip=(), _stack=()):
         if not isinstance(n, dict):
             return n
         k = n.get("k")
-        if k in ("call", "mcall") and n.get("callee") in F.fns and n["callee"] not in _stack and n["callee"] not in skip and "ctor" not in n:
+        if k in ("call", "mcall") and n.get("callee") in F.fns and n["callee"] not in _stack and "ctor" not in n and \
+                not (skip(n["callee"]) if callable(skip) else n["callee"] in skip):
             g = F.fns[n["callee"]]
             b = body_of(g)
             if b is not None and _size(b, max_size + 1) <= max_size:
@@ -700,3 +701,15 @@ def paths(body, oracle, limit=400, arm_oracle=None):
     except _Stop:
         out.append(([], "limit"))
     return out
+
+
+def body_inl(F, fn, keep=(), max_size=400, depth=3):
+    """Body of `fn` with its small helpers read in place, except the functions a rule itself looks for: `keep` lists
+    their (last-segment) names or full paths.  A rule that scans one function for calls / tests / assignments thereby
+    sees the same program whether a fragment is written in place or was moved into a private helper."""
+    b = body_of(fn)
+    if b is None:
+        return None
+    keep = set(keep)
+    # trait-impl methods (derived Clone / From / Display ..) are not "helpers": they stay calls
+    return inline_helpers(F, b, depth=depth, max_size=max_size, skip=lambda c: c in keep or last(c) in keep or c.startswith("<") or "::<impl " in c and " for " in c)
